@@ -30,6 +30,7 @@ def main():
     prop, n = sys.argv[1], sys.argv[2]
     checks = [prop]
     tier = "quick"
+    scratch = False
     a = sys.argv[3:]
     while a:
         if a[0] == "--checks":
@@ -38,6 +39,9 @@ def main():
         elif a[0] == "--tier":
             tier = a[1]
             a = a[2:]
+        elif a[0] == "--scratch":
+            scratch = True
+            a = a[1:]
         else:
             a = a[1:]
     wt = f"/tmp/seed/{prop}"
@@ -74,22 +78,43 @@ def main():
         meta = json.load(open(os.path.join(src, "meta.json")))
     except Exception:  # noqa: BLE001
         meta = {}
-    # run the checks against /repo with the patch applied
-    rcg, outg = sh(f"git apply --check {dst}/patch.diff", cwd="/repo")
+    # run the checks against the patched tree: either /repo itself (apply, run, undo) or, with --scratch, a scratch
+    # copy of the package in /dev/shm given to the checks through VERIF_REPO (leaves /repo untouched, so that
+    # background runs against /repo are not disturbed)
     results = {}
-    if rcg != 0:
-        print("patch does not apply to current /repo:", outg)
-        results["apply"] = "failed: " + outg[-300:]
-    else:
-        sh(f"git apply {dst}/patch.diff", cwd="/repo")
+    if scratch:
+        import tempfile
+
+        tmp = tempfile.mkdtemp(prefix="seed-", dir="/dev/shm")
         try:
-            for ck in checks:
-                rc, out = sh(f"/venv/bin/python run.py {ck} {tier}", cwd="/verif", env={"VERIF_ALT": "1"})
-                sigs = [l.strip() for l in out.splitlines() if l.strip().startswith("signature=")]
-                results[ck] = {"exit": rc, "detected": rc == 1, "signatures": sigs[:6], "summary": out.strip().splitlines()[-1] if out.strip() else ""}
-                print(ck, tier, "exit", rc, "DETECTED" if rc == 1 else "MISSED", sigs[:3])
+            shutil.copytree("/repo/pyoda_time", os.path.join(tmp, "pyoda_time"), ignore=shutil.ignore_patterns("__pycache__"))
+            rcg, outg = sh(f"patch -p1 --fuzz=3 -s < {dst}/patch.diff", cwd=tmp)
+            if rcg != 0:
+                print("patch does not apply to current /repo copy:", outg)
+                results["apply"] = "failed: " + outg[-300:]
+            else:
+                for ck in checks:
+                    rc, out = sh(f"/venv/bin/python run.py {ck} {tier}", cwd="/verif", env={"VERIF_REPO": tmp})
+                    sigs = [l.strip() for l in out.splitlines() if l.strip().startswith("signature=")]
+                    results[ck] = {"exit": rc, "detected": rc == 1, "signatures": sigs[:6], "summary": out.strip().splitlines()[-1] if out.strip() else "", "how": "scratch copy via VERIF_REPO"}
+                    print(ck, tier, "exit", rc, "DETECTED" if rc == 1 else "MISSED", sigs[:3])
         finally:
-            sh("git checkout -- .", cwd="/repo")
+            shutil.rmtree(tmp, ignore_errors=True)
+    else:
+        rcg, outg = sh(f"git apply --check {dst}/patch.diff", cwd="/repo")
+        if rcg != 0:
+            print("patch does not apply to current /repo:", outg)
+            results["apply"] = "failed: " + outg[-300:]
+        else:
+            sh(f"git apply {dst}/patch.diff", cwd="/repo")
+            try:
+                for ck in checks:
+                    rc, out = sh(f"/venv/bin/python run.py {ck} {tier}", cwd="/verif", env={"VERIF_ALT": "1"})
+                    sigs = [l.strip() for l in out.splitlines() if l.strip().startswith("signature=")]
+                    results[ck] = {"exit": rc, "detected": rc == 1, "signatures": sigs[:6], "summary": out.strip().splitlines()[-1] if out.strip() else ""}
+                    print(ck, tier, "exit", rc, "DETECTED" if rc == 1 else "MISSED", sigs[:3])
+            finally:
+                sh("git checkout -- .", cwd="/repo")
     meta.update({"property": prop, "confirmed_by_me": ran, "checks_run": results, "tier": tier})
     json.dump(meta, open(os.path.join(dst, "meta.json"), "w"), indent=1)
     return 0
